@@ -2,6 +2,7 @@
 real synchronous standard library, and describing it to the Lean driver."""
 import builtins
 import functools
+import heapq
 import itertools
 
 from world import (ALL_KINDS, FILL, Item, SyncIterSource, SrcState, UserExc, asyncstdlib, canon, drive,
@@ -28,7 +29,30 @@ def mkval(j):
         return FILL
     if tag == "t":
         return tuple(mkval(x) for x in j[1:])
+    if tag == "l":
+        return [mkval(x) for x in j[1:]]
+    if tag == "f":
+        return float(j[1])
+    if tag == "s":
+        return j[1]
     raise ValueError(j)
+
+
+def _pv(p, key):
+    """the (single) Python object made for parameter `key` of this run"""
+    objs = p.setdefault("_objs", {})
+    if key not in objs:
+        objs[key] = mkval(p[key])
+    return objs[key]
+
+
+def canon_result(v):
+    """canonical form of an aggregation result (sets / dicts in insertion order are order-free)"""
+    if isinstance(v, (set, frozenset)):
+        return ["set"] + sorted(canon(x) for x in v)
+    if isinstance(v, dict):
+        return ["dict"] + sorted([canon(k), canon(x)] for k, x in v.items())
+    return canon(v)
 
 
 def mkscript(script):
@@ -121,7 +145,7 @@ def _fn(F, p, key="fn"):
 
 
 def _init(p, key="initial"):
-    return mkval(p[key]) if p.get(key) is not None else None
+    return _pv(p, key) if p.get(key) is not None else None
 
 
 def _islice_args(p):
@@ -129,7 +153,7 @@ def _islice_args(p):
 
 
 def _acc_kwargs(p):
-    return {"initial": mkval(p["initial"])} if p.get("initial") is not None else {}
+    return {"initial": _pv(p, "initial")} if p.get("initial") is not None else {}
 
 
 ASYNC_TOOLS = {
@@ -153,7 +177,29 @@ ASYNC_TOOLS = {
     "iter": lambda S, F, p: A.iter(F[0], mkval(p["sentinel"])),
     "all": lambda S, F, p: A.all(S[0]),
     "any": lambda S, F, p: A.any(S[0]),
+    "sum": lambda S, F, p: A.sum(S[0], _pv(p, "start")) if p.get("start") is not None else A.sum(S[0]),
+    "min": lambda S, F, p: A.min(S[0], **_mm_kwargs(F, p)),
+    "max": lambda S, F, p: A.max(S[0], **_mm_kwargs(F, p)),
+    "list": lambda S, F, p: A.list(S[0]),
+    "tuple": lambda S, F, p: A.tuple(S[0]),
+    "set": lambda S, F, p: A.set(S[0]),
+    "dict": lambda S, F, p: A.dict(S[0]),
+    "sorted": lambda S, F, p: A.sorted(S[0], key=_fn(F, p, "key"), reverse=p.get("reverse", False)),
+    "reduce": lambda S, F, p: (A.reduce(F[0], S[0], _pv(p, "initial")) if p.get("initial") is not None
+                               else A.reduce(F[0], S[0])),
+    "nlargest": lambda S, F, p: A.nlargest(S[0], p["n"], key=_fn(F, p, "key")),
+    "nsmallest": lambda S, F, p: A.nsmallest(S[0], p["n"], key=_fn(F, p, "key")),
+    "merge": lambda S, F, p: A.merge(*S, key=_fn(F, p, "key"), reverse=p.get("reverse", False)),
 }
+
+
+def _mm_kwargs(F, p):
+    kw = {}
+    if p.get("key") is not None:
+        kw["key"] = F[p["key"]]
+    if p.get("default") is not None:
+        kw["default"] = _pv(p, "default")
+    return kw
 
 
 def _batched_ref(iterable, n, strict):
@@ -218,9 +264,23 @@ SYNC_TOOLS = {
     "iter": lambda S, F, p: builtins.iter(F[0], mkval(p["sentinel"])),
     "all": lambda S, F, p: builtins.all(S[0]),
     "any": lambda S, F, p: builtins.any(S[0]),
+    "sum": lambda S, F, p: builtins.sum(S[0], _pv(p, "start")) if p.get("start") is not None else builtins.sum(S[0]),
+    "min": lambda S, F, p: builtins.min(S[0], **_mm_kwargs(F, p)),
+    "max": lambda S, F, p: builtins.max(S[0], **_mm_kwargs(F, p)),
+    "list": lambda S, F, p: builtins.list(S[0]),
+    "tuple": lambda S, F, p: builtins.tuple(S[0]),
+    "set": lambda S, F, p: builtins.set(S[0]),
+    "dict": lambda S, F, p: builtins.dict(S[0]),
+    "sorted": lambda S, F, p: builtins.sorted(S[0], key=_fn(F, p, "key"), reverse=p.get("reverse", False)),
+    "reduce": lambda S, F, p: (functools.reduce(F[0], S[0], _pv(p, "initial")) if p.get("initial") is not None
+                               else functools.reduce(F[0], S[0])),
+    "nlargest": lambda S, F, p: heapq.nlargest(p["n"], S[0], key=_fn(F, p, "key")),
+    "nsmallest": lambda S, F, p: heapq.nsmallest(p["n"], S[0], key=_fn(F, p, "key")),
+    "merge": lambda S, F, p: heapq.merge(*S, key=_fn(F, p, "key"), reverse=p.get("reverse", False)),
 }
 
-AGGREGATIONS = {"all", "any"}
+AGGREGATIONS = {"all", "any", "sum", "min", "max", "list", "tuple", "set", "dict", "sorted", "reduce", "nlargest",
+                "nsmallest"}
 
 # ---------------------------------------------------------------------------------------------
 # running a case
@@ -229,7 +289,7 @@ AGGREGATIONS = {"all", "any"}
 def run_async(case, reply=None):
     """the real asyncstdlib, hand-driven; returns the observation dict"""
     log = []
-    p = case.get("params", {})
+    p = dict(case.get("params", {}))
     S, states = [], []
     for i, src in enumerate(case["srcs"]):
         obj, st = make_source(src["kind"], mkscript(src["script"]), i, log, src.get("susp", 0), src.get("close_susp", 0))
@@ -247,9 +307,13 @@ def run_async(case, reply=None):
     if case["tool"] in AGGREGATIONS:
         res = drive(thing, reply)
         tokens += res.tokens
-        out = ["raised", exc_name(res.exc)] if res.exc is not None else ["returned", canon(res.value)]
+        out = ["raised", exc_name(res.exc)] if res.exc is not None else ["returned", canon_result(res.value)]
+        mutated = [k for k, o in p.get("_objs", {}).items() if canon(o) != canon(mkval(case["params"][k]))]
+        mutated += ["src%d" % i for i, (src, obj) in enumerate(zip(case["srcs"], S))
+                    if src["kind"] == "list" and [canon(x) for x in obj] != [canon(mkval(e)) for e in src["script"]]]
+        returned_same = [k for k, o in p.get("_objs", {}).items() if res.exc is None and res.value is o]
         return {"vis": log, "out": out, "srcs": [s.summary() for s in states], "tokens": tokens,
-                "exc_is_injected": _same_exc(res.exc)}
+                "exc_is_injected": _same_exc(res.exc), "mutated": mutated, "returned_param": returned_same}
     taken = 0
     exc_obj = None
     while True:
@@ -309,7 +373,7 @@ def _same_exc(exc):
 def run_sync(case):
     """the real synchronous standard library on the same data, driven the same number of steps"""
     log = []
-    p = case.get("params", {})
+    p = dict(case.get("params", {}))
     S = []
     for i, src in enumerate(case["srcs"]):
         st = SrcState(i, "iter")
@@ -321,7 +385,7 @@ def run_sync(case):
     except BaseException as exc:  # noqa: B036
         return {"vis": log, "out": ["raised", exc_name(exc)], "at_construction": True}
     if case["tool"] in AGGREGATIONS:
-        return {"vis": log, "out": ["returned", canon(thing)]}
+        return {"vis": log, "out": ["returned", canon_result(thing)]}
     taken = 0
     while True:
         if cons["fin"] != "exhaust" and taken == cons.get("take", 1):
